@@ -18,7 +18,7 @@ inside pandas/statsmodels.
 import ast
 import re
 
-from mmsa import au, cfg as cfgmod, dataflow
+from mmsa import au, cfg as cfgmod, dataflow, pathcond
 from mmsa.core import Undecided, norm, walk_no_nested
 
 CLS = 'tbrdiagnostics.TBRDiagnostics'
@@ -153,8 +153,12 @@ def r2_r3_fit(repo, rep, cls):
         if isinstance(v, ast.Subscript) and norm(v.value) == 'self._data':
           sl = v.slice
           if mask and isinstance(sl, ast.UnaryOp) and isinstance(sl.op, ast.Invert) and norm(sl.operand) == mask \
-              and rd.single_def(n, mask) is not None and rd.single_def(n, mask).node is fn:
+              and rd.single_def(n, mask) is not None and rd.single_def(n, mask).node is fn \
+              and not (isinstance(fn.ast.value, ast.UnaryOp) and isinstance(fn.ast.value.op, ast.Invert)):
             applied = True
+          elif mask and norm(sl) == mask and rd.single_def(n, mask) is not None and rd.single_def(n, mask).node is fn \
+              and isinstance(fn.ast.value, ast.UnaryOp) and isinstance(fn.ast.value.op, ast.Invert) and any(x_ is call for x_ in ast.walk(fn.ast.value.operand)):
+            applied = True          # the mask itself is the negated membership test (keep = ~col.isin(values))
           elif mask and norm(sl) == mask and rd.single_def(n, mask) is not None and rd.single_def(n, mask).node is fn:
             rep.violation('R2/report-equals-removal', fit.qualname, norm(n.ast),
                           'the %s mask is applied without negation: the reported rows are kept and all others removed' % key, fit.loc(n.ast))
@@ -169,6 +173,22 @@ def r2_r3_fit(repo, rep, cls):
   for s in stores:
     p = g.path_avoiding(s, lambda n: n is g.exit, lambda n: n in reagg, cfgmod.no_exc)
     rep.analysed['paths'] += 1
+    if p is not None:
+      # is some complete path (entry -> store -> exit without re-aggregation) feasible under its own conditions?
+      try:
+        feasible = None
+        for full in g.enumerate_paths(g.entry, lambda n: n is g.exit, cfgmod.no_exc, max_paths=4000, back_limit=0):
+          idx = [i for i, (n_, _l) in enumerate(full) if n_ is s]
+          if not idx or any(n_ in reagg for n_, _l in full[idx[-1]:]):
+            continue
+          pf = pathcond.PathFacts(full, rd)
+          if pf.feasible:
+            feasible = full
+            break
+        if feasible is None:
+          p = None
+      except Undecided:
+        pass
     rep.check(p is None, 'R3/reaggregate', 'store `%s` is followed by re-aggregation on every path' % norm(s.ast)[:50], fit.qualname,
               norm(s.ast)[:120], 'after `%s` some path reaches the end of fit() without calling _create_analysis_data(): the aggregated series still contain the removed rows (path: %s)'
               % (norm(s.ast)[:60], ' -> '.join('L%d' % n.lineno for n, _ in (p or []) if n.lineno)), fit.loc(s.ast))
